@@ -425,4 +425,18 @@ theorem g_demo_witness :
     s.quiescent = true ∧ s.v 2 = false ∧ s.v 3 = true := by
   decide
 
+/-- Composition for any kind of derived value: if the defining function of node `k` only looks at lower-numbered
+nodes, the defining equations have one solution over given base values. -/
+theorem compose_unique_general {α : Type} (base : Nat → Bool) (F : Nat → (Nat → α) → α)
+    (hF : ∀ k (v v' : Nat → α), (∀ j, j < k → v j = v' j) → F k v = F k v')
+    (v v' : Nat → α) (hb : ∀ j, base j = true → v j = v' j)
+    (hv : ∀ k, base k = false → v k = F k v) (hv' : ∀ k, base k = false → v' k = F k v') : ∀ k, v k = v' k := by
+  intro k
+  induction k using Nat.strongRecOn with
+  | _ k ih =>
+    cases hk : base k
+    · rw [hv k hk, hv' k hk]
+      exact hF k v v' ih
+    · exact hb k hk
+
 end Hive.Derived
